@@ -1009,8 +1009,11 @@ func ruleAutoMTLSGate(c *Ctx) {
 						return true
 					}
 				}
-				if at.Kind == "nil" && at.Op == token.NEQ && identObj(info, at.X) == cfgVar {
-					return true
+				// a configuration from the TLS provider: any local *tls.Config known non-nil
+				if at.Kind == "nil" && at.Op == token.NEQ {
+					if v, isV := identObj(info, at.X).(*types.Var); isV && !v.IsField() && isTLSConfigType(derefType(v.Type())) {
+						return true
+					}
 				}
 				return false
 			}
@@ -1068,4 +1071,11 @@ func ruleAutoMTLSGate(c *Ctx) {
 	if nStores == 0 {
 		c.R.Undecided("R-TLS/automtls", "Client.Start", "instance-floor", "no store to ClientConfig.TLSConfig found (the AutoMTLS configuration is expected)")
 	}
+}
+
+func derefType(t types.Type) types.Type {
+	if pt, ok := t.Underlying().(*types.Pointer); ok {
+		return pt.Elem()
+	}
+	return t
 }
